@@ -31,4 +31,9 @@ ub('C02.rans_bit_start', 'C18/alloc.cc', 'h_rans_bit', unwind=8, max_alloc=48, a
 ub('C02.kd_out_iter', 'C02/kdout.cc', 'h_kd_out_iter', unwind=6, max_alloc=48, defines={'NPTS': 2, 'NCOMP': 2},
    bound='real PointAttribute with 2 values x 2 uint32 components (16 requested bytes inside a 48-byte chunk), iterator at ANY point index, any values',
    covers='PointAttributeVectorOutputIterator<uint32_t>::operator=(const std::vector&) / operator++ (kd_tree_attributes_decoder.cc), PointAttribute::SetAttributeValue, DataBuffer::Write')
+for nm, cov in (('wrap', 'PredictionSchemeWrapDecodingTransform::DecodeTransformData/ComputeOriginalValue/ClampPredictedValue'),
+                ('oct_canon', 'PredictionSchemeNormalOctahedronCanonicalizedDecodingTransform::DecodeTransformData/ComputeOriginalValue, OctahedronToolBox::IsInDiamond/InvertDiamond/ModMax, RotatePoint'),
+                ('oct_plain', 'PredictionSchemeNormalOctahedronDecodingTransform::DecodeTransformData/ComputeOriginalValue')):
+    ub('C02.xform_%s' % nm, 'C02/xform.cc', 'h_%s' % nm, unwind=10, max_alloc=16, fill_bound=10,
+       bound='8 symbolic bytes with symbolic length and version for the transform data, then ANY int32 prediction and correction (2 components)', covers=cov)
 META = {}
